@@ -37,8 +37,14 @@ func c18Workload(rt *rapid.T, ev *evid.Rec) {
 		rt.Fatalf("VERIF-INCONCLUSIVE restart: %v", err)
 	}
 	// the background head poller is part of the pipeline: 1 ms
+	deadWS := false
 	for _, s := range w.Sources {
 		s.client = jrpc2.New(s.urls()...).WithPollDuration(time.Millisecond).WithMaxReads(len(m.decls))
+		if rapid.IntRange(0, 3).Draw(rt, "deadws") == 0 {
+			// a configured websocket endpoint that refuses connections: the listener fails and is started again
+			s.client = s.client.WithWSURL("ws://127.0.0.1:1/")
+			deadWS = true
+		}
 	}
 	if err := w.rebuildTasksWithClients(); err != nil {
 		rt.Fatalf("VERIF-INCONCLUSIVE rebuild: %v", err)
@@ -103,7 +109,7 @@ func c18Workload(rt *rapid.T, ev *evid.Rec) {
 	wg.Wait()
 	cnt := w.Sources[0].Node.Counts()
 	overlapped = cnt["http:blocks"] + cnt["http:headers"]
-	ev.Case(len(w.Pairs) > 1 || w.Sources[0].Conc > 1, m.describeConfig()+fmt.Sprint(rounds, procs), fmt.Sprintf("pairs=%d", len(w.Pairs)), fmt.Sprintf("conc=%d", w.Sources[0].Conc), fmt.Sprintf("gomaxprocs=%d", procs), fmt.Sprintf("segmentFetches>10=%v", overlapped > 10))
+	ev.Case(len(w.Pairs) > 1 || w.Sources[0].Conc > 1, m.describeConfig()+fmt.Sprint(rounds, procs), fmt.Sprintf("pairs=%d", len(w.Pairs)), fmt.Sprintf("conc=%d", w.Sources[0].Conc), fmt.Sprintf("gomaxprocs=%d", procs), fmt.Sprintf("segmentFetches>10=%v", overlapped > 10), fmt.Sprintf("deadWebsocket=%v", deadWS))
 	if ev.WantSample(3) {
 		ev.Sample(3, map[string]any{"config": m.describeConfig(), "rounds": rounds, "gomaxprocs": procs, "rpc_counts": cnt})
 	}
